@@ -329,6 +329,29 @@ def run_C03(ctx):
         cl.append("costs old=%s new=%s" % (gen.fmt_list(a), gen.fmt_list(b)))
         ctx.count("costs:myers-vs-lcs-structured")
     C.evaluate(ctx, "costs-myers-vs-lcs", cl, rel, cap=300, nontrivial=lambda comp, kv, impl: "M=0" not in impl)
+    # lopsided boxes: a handful of items against thousands, the short side's items occurring on the long side many
+    # times and in other orders (a leftmost greedy embedding of the short side is not an LCS); the box is small enough
+    # for the exact optimum of the checker (clause minimal), and Myers and LCS are compared as well
+    lop, lopc = [], []
+    for _ in range(tiered(ctx, 10, 60)):
+        k = ctx.rng.randrange(3, 17)
+        m = ctx.rng.choice([4096, 4500, 6000])
+        short = list(range(1, k + 1))
+        long_ = [100 + ctx.rng.randrange(50) for _ in range(m)]
+        for _j in range(ctx.rng.randrange(k, 6 * k)):
+            long_[ctx.rng.randrange(m)] = ctx.rng.choice(short)
+        # a late occurrence of an early item behind occurrences of the later ones
+        long_[ctx.rng.randrange(m // 2)] = short[-1]
+        if ctx.rng.random() < 0.5:
+            long_[:k - 1] = short[1:]
+            long_[-1] = short[0]
+        a, b = (short, long_) if ctx.rng.random() < 0.7 else (long_, short)
+        lop.append(gen.raw_line("M", a, b))
+        lop.append(gen.capture_line("M", a, b))
+        lopc.append("costs old=%s new=%s" % (gen.fmt_list(a), gen.fmt_list(b)))
+        ctx.count("raw:lopsided-box")
+    C.evaluate(ctx, "lopsided-boxes", lop, rel, x=False, cap=300)
+    C.evaluate(ctx, "costs-lopsided", lopc, rel, cap=300, nontrivial=lambda comp, kv, impl: "M=0" not in impl)
 
 
 SPECS["C03"] = dict(
@@ -476,7 +499,7 @@ SPECS["C07"] = dict(
 
 
 # ------------------------------------------------------------------ C08
-STACKS = ["none", "mutref", "nofinish", "replace", "replace_norep", "replace_nofinish", "compact", "compact_replace"]
+STACKS = ["none", "mutref", "nofinish", "replace", "replace_norep", "replace_nofinish", "compact", "compact_replace", "replace_compact"]
 
 
 def run_C08(ctx):
@@ -512,7 +535,7 @@ def run_C08(ctx):
     ad = []
     for a, b in gen.all_pairs(2, 2):
         for sc in gen.all_scripts(a, b, limit=40):
-            for st in ["replace", "replace_norep", "compact", "compact_replace", "nofinish", "mutref"]:
+            for st in ["replace", "replace_norep", "compact", "compact_replace", "replace_compact", "nofinish", "mutref"]:
                 n_out = len(sc) + 1
                 for k in range(0, n_out):
                     ad.append(gen.adapter_line(a, b, sc, st, fail=k))
@@ -532,7 +555,7 @@ def run_C08(ctx):
                 continue
             sc = [("R", 0, len(a), 0, len(b)), ("F",)]
             sc2 = [("D", 0, len(a), 0), ("I", len(a), 0, len(b)), ("F",)]
-            for st in ["mutref", "nofinish", "replace", "replace_norep", "replace_nofinish", "compact", "compact_replace"]:
+            for st in ["mutref", "nofinish", "replace", "replace_norep", "replace_nofinish", "compact", "compact_replace", "replace_compact"]:
                 for script in (sc, sc2):
                     fw.append(gen.adapter_line(a, b, script, st))
                     for k in range(0, 4):
@@ -593,6 +616,14 @@ def run_C09(ctx):
         a += [10 + i, 2]
         b += [10 + i, 3]
     C.evaluate(ctx, "capture-quarter-million-ops", [gen.capture_line("P", a, b)], rel, x=False, cap=300)
+    # an insertion / a deletion that has to slide over a run of 70000 equal items to reach its latest position (a
+    # step limit in the shift loops would leave it half way)
+    run = 70000
+    sl = []
+    for alg in "MP":
+        sl.append(gen.capture_line(alg, [8, 1] + [0] * run + [2, 9], [7, 1] + [0] * (run + 1) + [2, 6]))
+        sl.append(gen.capture_line(alg, [8, 1] + [0] * (run + 1) + [2, 9], [7, 1] + [0] * run + [2, 6]))
+    C.evaluate(ctx, "capture-long-slide", sl, rel, x=False, cap=300)
 
 
 SPECS["C09"] = dict(
@@ -1133,6 +1164,33 @@ def threshold_text_cases(ctx):
         for alg in ALGS:
             cases.append(("lines", alg, ctx.rng.choice(["str", "bytes"]), None, "-", ot, nt))
             ctx.count("textdiff:insertion-before-matching-tail")
+    # one text is the other with a block put in front of it, behind it or in its middle (nothing else changed), and
+    # the block begins or ends with tokens of the text next to it, so that the change can slide: a shortcut for
+    # "pure prepend / pure append" that skips the pipeline would place it differently
+    for rep in range(tiered(ctx, 30, 300)):
+        n = ctx.rng.choice([40, 101, 110, 160])
+        text = [b"u%d" % ctx.rng.randrange(ctx.rng.choice([3, 30, 1000])) for _ in range(n)]
+        bl = ctx.rng.randrange(1, 6)
+        where = ctx.rng.choice(["front", "front", "back", "middle"])
+        if where == "front":
+            j = ctx.rng.randrange(1, bl + 1)
+            block = text[:j] + [b"new%d" % ctx.rng.randrange(3) for _ in range(bl - j)]
+            longer = block + text
+        elif where == "back":
+            j = ctx.rng.randrange(1, bl + 1)
+            block = [b"new%d" % ctx.rng.randrange(3) for _ in range(bl - j)] + text[-j:]
+            longer = text + block
+        else:
+            at = ctx.rng.randrange(1, n)
+            block = text[at:at + ctx.rng.randrange(1, 3)] + [b"new0"]
+            longer = text[:at] + block + text[at:]
+        a = b"".join(x + b"\n" for x in text)
+        b = b"".join(x + b"\n" for x in longer)
+        if ctx.rng.random() < 0.5:
+            a, b = b, a
+        for alg in ALGS:
+            cases.append(("lines", alg, ctx.rng.choice(["str", "bytes"]), None, "-", a, b))
+            ctx.count("textdiff:one-sided-block-%s" % where)
     return cases
 
 
@@ -1694,6 +1752,29 @@ def run_C18(ctx):
             for cb in (b, b + 1, f32_bits(0.5)):
                 lines.append("close word=%s cands=%s|%s n=%d cutoff=%d" % (gen.hx(w.encode()), gen.hx(cand.encode()), gen.hx(b"ab"), ctx.rng.choice([1, 2]), cb))
                 ctx.count("close:long-words-misplaced-unique-char")
+    # distinct ratios in the same 10^-6 bucket at ordinary magnitudes (a coarser ranking key would tie them): word a^700,
+    # candidates a^L b^(len-L) with ratio 2L/(700+len); the lexicographically smaller candidate has the lower ratio
+    near = []
+    W = 700
+    for L1 in range(360, 640, 3):
+        for n1 in range(max(L1 + 1, 600), 900, 7):
+            r1 = 2.0 * L1 / (W + n1)
+            for L2 in range(L1 + 1, L1 + 40):
+                # candidate 2 starts with more a's, so it sorts before candidate 1; give it the slightly lower ratio
+                n2 = int(round(2.0 * L2 / r1)) - W
+                for n2_ in (n2, n2 + 1):
+                    if n2_ <= L2 or n2_ > 900:
+                        continue
+                    r2 = 2.0 * L2 / (W + n2_)
+                    if 0 < r1 - r2 and int(r1 * 1e6) == int(r2 * 1e6) and int(r1 * 1e7) != int(r2 * 1e7):
+                        near.append((L1, n1, L2, n2_))
+    ctx.rng.shuffle(near)
+    for L1, n1, L2, n2 in near[:tiered(ctx, 4, 20)]:
+        c1 = "a" * L1 + "b" * (n1 - L1)
+        c2 = "a" * L2 + "b" * (n2 - L2)
+        for nn in (1, 2):
+            lines.append("close word=%s cands=%s|%s n=%d cutoff=%d" % (gen.hx(b"a" * W), gen.hx(c2.encode()), gen.hx(c1.encode()), nn, f32_bits(0.5)))
+            ctx.count("close:near-ties-at-ordinary-ratios")
     lines.append("close word=%s cands=%s n=3 cutoff=%d" % (gen.hx(b"appel"), "|".join(gen.hx(x) for x in [b"ape", b"apple", b"peach", b"puppy"]), f32_bits(0.6)))
     # the witness of known finding F9 (two distinct ratios below 2^-9 with the same u32 key)
     c1 = b"a" + b"b" * 131071
